@@ -648,7 +648,7 @@ theorem cutIfLong_manifold {ds ds' : DSetData} {x : Nat} (hm : Manifold3 ds)
     have r01 := hv.range 0 _ (by omega) r1.1 r1.2
     have vb : b = ds.opU 0 (ds.opU 1 x) := rb.2.2.2.1.symm
     subst vb
-    obtain ⟨v', s', d', _, _, f', l', g'⟩ := cutFace_commutes hv hdim r0.1 r0.2 r01.1 r01.2 k4
+    obtain ⟨v', s', d', _, _, f', l', g', _⟩ := cutFace_commutes hv hdim r0.1 r0.2 r01.1 r01.2 k4
     exact ⟨⟨⟨v', d', f' hf⟩, l' hl, g' hd⟩, by omega⟩
   · have : ds = ds' := by
       have k1' : (Outcome.ok ds : Outcome DSetData) = .ok ds' := k1
